@@ -2,6 +2,7 @@ package main
 
 import (
 	"bytes"
+	"encoding/json"
 	"reflect"
 	"strconv"
 
@@ -15,3 +16,90 @@ func decoderPretouchMany(l []reflect.Type) error { return decoder.PretouchMany(l
 type bytesBuffer struct{ bytes.Buffer }
 
 func strconvUnquote(s string) (string, error) { return strconv.Unquote(s) }
+
+// dropNullDuplicates removes, from a top-level JSON object, every pair whose value is null
+// and whose key already occurred; ok is false if nothing was removed or doc is not an object.
+func dropNullDuplicates(doc []byte) ([]byte, bool) {
+	return dropNullDuplicatesBy(doc, func(k string) string { return k })
+}
+
+// dropNullDuplicatesBy: keys are identified after the conversion keyID applies to them
+// (text-unmarshaling map keys may map different spellings to one key).
+func dropNullDuplicatesBy(doc []byte, keyID func(string) string) ([]byte, bool) {
+	dec := json.NewDecoder(bytes.NewReader(doc))
+	dec.UseNumber()
+	tok, err := dec.Token()
+	if err != nil || tok != json.Delim('{') {
+		return nil, false
+	}
+	var out bytes.Buffer
+	out.WriteByte('{')
+	seen := map[string]bool{}
+	removed := false
+	first := true
+	for dec.More() {
+		k, err := dec.Token()
+		if err != nil {
+			return nil, false
+		}
+		var raw json.RawMessage
+		if err := dec.Decode(&raw); err != nil {
+			return nil, false
+		}
+		ks := k.(string)
+		id := keyID(ks)
+		if seen[id] && string(bytes.TrimSpace(raw)) == "null" {
+			removed = true
+			continue
+		}
+		seen[id] = true
+		if !first {
+			out.WriteByte(',')
+		}
+		first = false
+		kb, _ := json.Marshal(ks)
+		out.Write(kb)
+		out.WriteByte(':')
+		out.Write(raw)
+	}
+	out.WriteByte('}')
+	return out.Bytes(), removed
+}
+
+// mapMergeEmulate decodes a top-level object into a map of type t the way a decoder does
+// that decodes a repeated key INTO THE EXISTING ELEMENT (instead of a fresh zero element as
+// encoding/json does): pairs are applied in order with encoding/json, starting from the
+// element already stored under the (converted) key.
+func mapMergeEmulate(t reflect.Type, doc []byte, unmarshal func([]byte, interface{}) error) (reflect.Value, bool) {
+	dec := json.NewDecoder(bytes.NewReader(doc))
+	tok, err := dec.Token()
+	if err != nil || tok != json.Delim('{') || t.Kind() != reflect.Map {
+		return reflect.Value{}, false
+	}
+	m := reflect.MakeMap(t)
+	for dec.More() {
+		k, err := dec.Token()
+		if err != nil {
+			return reflect.Value{}, false
+		}
+		var raw json.RawMessage
+		if err := dec.Decode(&raw); err != nil {
+			return reflect.Value{}, false
+		}
+		kb, _ := json.Marshal(k.(string))
+		one := reflect.New(t)
+		if err := unmarshal([]byte("{"+string(kb)+":null}"), one.Interface()); err != nil || one.Elem().Len() != 1 {
+			return reflect.Value{}, false
+		}
+		key := one.Elem().MapKeys()[0]
+		elem := reflect.New(t.Elem())
+		if old := m.MapIndex(key); old.IsValid() {
+			elem.Elem().Set(old)
+		}
+		if err := unmarshal(raw, elem.Interface()); err != nil {
+			return reflect.Value{}, false
+		}
+		m.SetMapIndex(key, elem.Elem())
+	}
+	return m, true
+}
